@@ -1218,11 +1218,12 @@ def gen_c12(repo):
     out += one('IsNull', 'isNullEval', 1, '`IsNull.eval`')
     out += one('IsNotNull', 'isNotNullEval', 1, '`IsNotNull.eval`')
     out += int_operation(tree, 'Mod', 'modInt', '`Mod.unsafe_operation` on two Python ints (`none` = the SQL null it returns)')
+    out += int_operation(tree, 'Divide', 'divRat', '`Divide.unsafe_operation` on two numbers as exact rationals (`none` = null)', num='Rat')
     return ('pysparkling/sql/expressions/operators.py (And.eval, Or.eval, Invert.eval, IsNull.eval, IsNotNull.eval, '
-            'Mod.unsafe_operation on ints)'), out
+            'Mod.unsafe_operation on ints, Divide.unsafe_operation)'), out
 
 
-def int_operation(tree, clsname, leanname, doc):
+def int_operation(tree, clsname, leanname, doc, num='Int'):
     """`unsafe_operation(self, value1, value2)` of a binary operator, for operands that are Python ints: `if`/`return`/assignments over
     `abs`, `%`, unary minus, comparisons with constants, conditional expressions. A branch guarded by `isinstance(.., float)` (alone
     or in an `or`) is the float case and is skipped; `return None` is the null result."""
@@ -1240,7 +1241,13 @@ def int_operation(tree, clsname, leanname, doc):
         if isinstance(e, ast.Name) and e.id in env:
             return env[e.id]
         if isinstance(e, ast.Constant) and isinstance(e.value, int) and not isinstance(e.value, bool):
-            return '(%d : Int)' % e.value
+            return '(%d : %s)' % (e.value, num)
+        if isinstance(e, ast.BinOp) and isinstance(e.op, ast.Div) and num == 'Rat':
+            return '(%s / %s)' % (ex(e.left, env), ex(e.right, env))              # true division (guarded by the caller's test)
+        if num != 'Int':
+            if isinstance(e, ast.Name) and e.id in env:
+                return env[e.id]
+            raise NotTranslatable('%s expression ' % num + ast.unparse(e)[:60])
         if isinstance(e, ast.Call) and ast.unparse(e.func) == 'abs' and len(e.args) == 1:
             return '((Int.natAbs %s : Nat) : Int)' % ex(e.args[0], env)
         if isinstance(e, ast.UnaryOp) and isinstance(e.op, ast.USub):
@@ -1265,9 +1272,13 @@ def int_operation(tree, clsname, leanname, doc):
         if isinstance(st, ast.Expr) and isinstance(st.value, ast.Constant):
             return block(rest, env, ind)
         if isinstance(st, ast.Return):
-            if st.value is None or (isinstance(st.value, ast.Constant) and st.value.value is None):
-                return 'none'
-            return '(some %s)' % ex(st.value, env)
+            def opt(v):
+                if v is None or (isinstance(v, ast.Constant) and v.value is None):
+                    return 'none'
+                if isinstance(v, ast.IfExp):
+                    return '(if %s then %s else %s)' % (cond(v.test, env), opt(v.body), opt(v.orelse))
+                return '(some %s)' % ex(v, env)
+            return opt(st.value)
         if isinstance(st, ast.If) and not st.orelse and is_float_test(st.test):
             return block(rest, env, ind)                   # the float case: not for ints
         if isinstance(st, ast.If) and not st.orelse:
@@ -1278,7 +1289,7 @@ def int_operation(tree, clsname, leanname, doc):
             return 'let %s := %s\n%s%s' % (nm, ex(st.value, env), pad, block(rest, dict(env, **{st.targets[0].id: nm}), ind))
         raise NotTranslatable('statement in %s.unsafe_operation: %s' % (clsname, ast.unparse(st)[:60]))
     body = block(list(fn[0].body), {'value1': 'value1', 'value2': 'value2'}, 2)
-    return '/-- %s -/\ndef %s (value1 value2 : Int) : Option Int :=\n  %s\n\n' % (doc, leanname, body)
+    return '/-- %s -/\ndef %s (value1 value2 : %s) : Option %s :=\n  %s\n\n' % (doc, leanname, num, num, body)
 
 
 # ---- C01: the actions of RDD as compositions over the list of partitions ---------------------------------
